@@ -265,6 +265,84 @@ func (w *encWalker) stmts(list []ast.Stmt, out *wout, baseMark func() (Poly, boo
 						continue
 					}
 				}
+				// the whole block of a packed fixed-width list reserved at once and filled front to back at fixed offsets:
+				//   i -= len(C)*k; for idx, v := range C { binary.LittleEndian.PutUintN(dAtA[i+idx*k:], V(v)) }      (k = 4, 8)
+				//   i -= len(C);   for idx, v := range C { if v { dAtA[i+idx] = 1 } else { dAtA[i+idx] = 0 } }          (bool)
+				// element idx lands at offset idx*k of the block: the elements in list order, exactly what the reverse
+				// element-by-element loop produces
+				if blkColl, blkK, ok := w.lenTimes(t.Rhs[0]); ok {
+					if rs, isRange := nx.(*ast.RangeStmt); isRange && rs.Tok == token.DEFINE && rs.Key != nil && rs.Value != nil && len(rs.Body.List) == 1 {
+						if c2, err := w.e.term(rs.X); err == nil && c2 == blkColl {
+							kID, _ := rs.Key.(*ast.Ident)
+							vID, _ := rs.Value.(*ast.Ident)
+							if kID != nil && vID != nil && kID.Name != "_" {
+								idxObj, vObj := info.ObjectOf(kID), info.ObjectOf(vID)
+								// dAtA[i+idx*k] / dAtA[i+idx*k:]
+								atSlot := func(x ast.Expr) bool {
+									be, ok := ast.Unparen(x).(*ast.BinaryExpr)
+									if !ok || be.Op != token.ADD || !w.isIdent(be.X, w.iVar) {
+										return false
+									}
+									if blkK == 1 && w.isIdent(be.Y, idxObj) {
+										return true
+									}
+									m, ok := ast.Unparen(be.Y).(*ast.BinaryExpr)
+									if !ok || m.Op != token.MUL {
+										return false
+									}
+									if kk, ok := constInt(info, m.Y); ok && kk == blkK && w.isIdent(m.X, idxObj) {
+										return true
+									}
+									if kk, ok := constInt(info, m.X); ok && kk == blkK && w.isIdent(m.Y, idxObj) {
+										return true
+									}
+									return false
+								}
+								ce := w.e.child()
+								ce.set(vObj, "elem("+blkColl+")")
+								switch st := rs.Body.List[0].(type) {
+								case *ast.ExprStmt:
+									if call, ok := st.X.(*ast.CallExpr); ok && len(call.Args) == 2 && (blkK == 4 || blkK == 8) {
+										q := core.QualName(core.CalleeObj(info, call))
+										want := fmt.Sprintf("encoding/binary.littleEndian.PutUint%d", blkK*8)
+										se, isSl := ast.Unparen(call.Args[0]).(*ast.SliceExpr)
+										if q == want && isSl && se.High == nil && !se.Slice3 && w.isIdent(se.X, w.buf) && atSlot(se.Low) {
+											v, err := ce.term(call.Args[1])
+											if err != nil {
+												return err
+											}
+											out.prepend(WLoop{blkColl, []W{WFixed{int(blkK), v}}})
+											i++
+											continue
+										}
+									}
+								case *ast.IfStmt:
+									// if v { dAtA[slot] = 1 } else { dAtA[slot] = 0 }
+									eb, hasElse := st.Else.(*ast.BlockStmt)
+									if blkK == 1 && st.Init == nil && hasElse && w.isIdent(st.Cond, vObj) && len(st.Body.List) == 1 && len(eb.List) == 1 {
+										store := func(s ast.Stmt, want int64) bool {
+											as, ok := s.(*ast.AssignStmt)
+											if !ok || as.Tok != token.ASSIGN || len(as.Lhs) != 1 || len(as.Rhs) != 1 {
+												return false
+											}
+											ie, ok := ast.Unparen(as.Lhs[0]).(*ast.IndexExpr)
+											if !ok || !w.isIdent(ie.X, w.buf) || !atSlot(ie.Index) {
+												return false
+											}
+											c, ok := constInt(info, as.Rhs[0])
+											return ok && c == want
+										}
+										if store(st.Body.List[0], 1) && store(eb.List[0], 0) {
+											out.prepend(WLoop{blkColl, []W{WBool{"elem(" + blkColl + ")"}}})
+											i++
+											continue
+										}
+									}
+								}
+							}
+						}
+					}
+				}
 				// i -= l with l = len(S): the same as i -= len(S)
 				if id, ok := ast.Unparen(t.Rhs[0]).(*ast.Ident); ok {
 					if src, ok := w.lenOf[info.ObjectOf(id)]; ok {
@@ -509,6 +587,37 @@ func (w *encWalker) stmts(list []ast.Stmt, out *wout, baseMark func() (Poly, boo
 	return nil
 }
 
+// lenTimes matches len(C) (k = 1), len(C)*k and k*len(C) for a list C of the message.
+func (w *encWalker) lenTimes(x ast.Expr) (string, int64, bool) {
+	info := w.e.info
+	x = ast.Unparen(x)
+	k := int64(1)
+	if be, ok := x.(*ast.BinaryExpr); ok && be.Op == token.MUL {
+		if c, ok := constInt(info, be.Y); ok {
+			k, x = c, ast.Unparen(be.X)
+		} else if c, ok := constInt(info, be.X); ok {
+			k, x = c, ast.Unparen(be.Y)
+		} else {
+			return "", 0, false
+		}
+	}
+	call, ok := x.(*ast.CallExpr)
+	if !ok || len(call.Args) != 1 {
+		return "", 0, false
+	}
+	if b, ok := core.CalleeObj(info, call).(*types.Builtin); !ok || b.Name() != "len" {
+		return "", 0, false
+	}
+	if _, isSlice := info.TypeOf(call.Args[0]).Underlying().(*types.Slice); !isSlice {
+		return "", 0, false
+	}
+	coll, err := w.e.term(call.Args[0])
+	if err != nil || (k != 1 && k != 4 && k != 8) {
+		return "", 0, false
+	}
+	return coll, k, true
+}
+
 func baseMark2(out *wout, mark func() (Poly, bool)) func() (Poly, bool) {
 	return mark
 }
@@ -555,10 +664,11 @@ func (w *encWalker) isErrReturn(s ast.Stmt, errID *ast.Ident) bool {
 		return false
 	}
 	rs, ok := is.Body.List[0].(*ast.ReturnStmt)
-	if !ok || len(rs.Results) != 2 {
+	if !ok || len(rs.Results) < 1 || len(rs.Results) > 2 {
 		return false
 	}
-	return w.isIdent(rs.Results[1], w.e.info.ObjectOf(errID))
+	// (…, err) in the marshal closure; a bare err in a helper closure that returns nothing but the error
+	return w.isIdent(rs.Results[len(rs.Results)-1], w.e.info.ObjectOf(errID))
 }
 
 // reverseLoop recognises `for idx := len(C) - 1; idx >= 0; idx--`.
@@ -716,6 +826,30 @@ func (w *encWalker) packedBlock(list []ast.Stmt, pk Poly, out *wout) (int, error
 	val := curTerm
 	if isSigned(ct) {
 		val = "sx(" + curTerm + ")"
+	}
+	// j += binary.PutUvarint(dAtA[j:], V): the library writes the minimal varint of V at j and reports its length
+	if len(body) == 1 {
+		if as, ok := body[0].(*ast.AssignStmt); ok && as.Tok == token.ADD_ASSIGN && len(as.Lhs) == 1 && len(as.Rhs) == 1 && w.isIdent(as.Lhs[0], jv) {
+			if call, ok := ast.Unparen(as.Rhs[0]).(*ast.CallExpr); ok && len(call.Args) == 2 && core.QualName(core.CalleeObj(info, call)) == "encoding/binary.PutUvarint" {
+				se, ok := ast.Unparen(call.Args[0]).(*ast.SliceExpr)
+				if !ok || se.High != nil || se.Slice3 || !w.isIdent(se.X, w.buf) || !w.isIdent(se.Low, jv) {
+					return 0, und("packed varint: PutUvarint does not write at the forward cursor")
+				}
+				v, err := ce.term(call.Args[1])
+				if err != nil {
+					return 0, err
+				}
+				if cur != info.ObjectOf(ev) {
+					v = strings.ReplaceAll(v, cur.Name(), curTerm)
+				}
+				want := pAtom("sum(" + coll + "){Sov(" + v + ")}")
+				if want.String() != pk.String() {
+					return 0, fmt.Errorf("packed block reserves %s bytes but writes %s", pk.String(), want.String())
+				}
+				out.prepend(WLoop{coll, []W{WVarint{v}}})
+				return 2, nil
+			}
+		}
 	}
 	if len(body) != 3 {
 		return 0, und("packed inline varint: expected loop, final store, increment")
